@@ -1,0 +1,14 @@
+//go:build !verif
+
+package eval
+
+// Inert stub of the resource-site counters; see trace_c40_verif.go (build tag
+// verif).
+
+const (
+	verifResOpen = iota
+	verifResClose
+	verifResGo
+)
+
+func verifRes(kind, n int) {}
